@@ -459,15 +459,27 @@ func C07(c *Ctx) {
 	c07ExecContract(c)
 	// ------------------------------------------------------------------ R2
 	n2 := map[string]int{}
+	nBare := 0
+	nOk := map[*ssa.Function]int{}
+	okPos := map[*ssa.Function]string{}
+	var okFns []*ssa.Function
 	for _, f := range fns {
 		ssau.Instrs(f, func(in ssa.Instruction) {
 			ta, ok := in.(*ssa.TypeAssert)
+			if ok && ta.CommaOk {
+				if nOk[f] == 0 {
+					okFns = append(okFns, f)
+					okPos[f] = c.pos(ta)
+				}
+				nOk[f]++
+			}
 			if !ok || ta.CommaOk {
 				return
 			}
 			if _, isIface := ta.AssertedType.Underlying().(*types.Interface); isIface && false {
 				return
 			}
+			nBare++
 			base := fname(f) + ":" + types.TypeString(ta.AssertedType, func(p *types.Package) string { return p.Name() })
 			n2[base]++
 			key := fmt.Sprintf("%s#%d", base, n2[base])
@@ -486,6 +498,15 @@ func C07(c *Ctx) {
 			}, 0)
 			c.R.Check(ok2, "C07-R2", key, c.pos(ta), "dominated by a successful test of the same value and type", "unchecked type assertion: panics when the value has another type")
 		})
+	}
+	// The rule is about every type assertion of the processing closure; one written in the two-result form is checked
+	// by its form and is not listed.  When (almost) every assertion has that form there is little to list: the
+	// assertions of the checked form are then recorded per function, so that "nothing to report" stays distinguishable
+	// from "nothing was looked at" (the minimum instance count of the rule).
+	if nBare < 3 {
+		for _, f := range okFns {
+			c.R.Discharge("C07-R2", fmt.Sprintf("%s: %d type assertions in the two-result form", fname(f), nOk[f]), okPos[f], "the two-result form of a type assertion does not panic")
+		}
 	}
 
 	// ------------------------------------------------------------------ R3
